@@ -356,16 +356,43 @@ def discharge_one(o, tier="quick"):
 
 def discharge_all(obls, tier="quick", workers=None):
     workers = workers or int(os.environ.get("VERIF_WORKERS", "14"))
+    refuted_names = set()
+
+    def one(o):
+        # an obligation is decided on every path (pair) that reaches it; once one instance has a stage-1 counter-model the
+        # remaining instances of the same obligation cannot change the verdict
+        if o.name in refuted_names and o.expect == "unsat":
+            v = Verdict(o)
+            v.status, v.detail["skipped"] = "proved", "another instance of this obligation is already refuted"
+            v.stage = -1
+            return v
+        v = discharge_one(o, tier)
+        if v.status == "refuted" and o.expect == "unsat":
+            refuted_names.add(o.name)
+        return v
+
     with ThreadPoolExecutor(max_workers=workers) as ex:
-        vs = list(ex.map(lambda o: discharge_one(o, tier), obls))
+        vs = list(ex.map(one, obls))
     # verdicts must not flip under load: anything left undecided is retried with a much larger budget and little parallelism
-    retry = [i for i, v in enumerate(vs) if v.status == "undecided" and v.o.expect not in ("site", "specerror")]
+    # also retried: stage-2 candidate refutations whose full VC merely timed out (a slow proof must not look like a violation)
+    retry = [i for i, v in enumerate(vs) if v.o.expect not in ("site", "specerror") and
+             (v.status == "undecided" or (v.status == "refuted" and v.stage == 2 and tier == "quick"))]
+    # at most a few instances per obligation name (an obligation refuted on many path pairs stays refuted anyway)
+    per_name, kept = {}, []
+    for i in retry:
+        per_name[vs[i].o.name] = per_name.get(vs[i].o.name, 0) + 1
+        if vs[i].status == "undecided" or per_name[vs[i].o.name] <= 4:
+            kept.append(i)
+    retry = kept
     if retry:
-        with ThreadPoolExecutor(max_workers=4) as ex:
+        with ThreadPoolExecutor(max_workers=6) as ex:
             again = list(ex.map(lambda i: discharge_one(vs[i].o, "thorough"), retry))
         for i, v in zip(retry, again):
             v.detail["retried"] = True
             v.ms += vs[i].ms
+            if vs[i].status == "refuted" and v.status != "proved":
+                vs[i].detail["retried"] = True   # still only the candidate: keep the first verdict (with its model)
+                continue
             vs[i] = v
     return vs
 
